@@ -71,7 +71,7 @@ fn check_text(acc: &mut Stats, family: &str, text: &str, no_std: bool, expect_ou
 
 const FIELD_NAMES: &[&str] = &["elseif", "for", "function", "goto", "local", "repeat", "return", "then", "until", "while", "x", "_", "V1", "__index", "type", "print", "string", "math", "_G", "nil_", "End", "self_"];
 
-const STR_ALPHABET: &[&str] = &["a", "\\", "n", "x", "0", "'", "%", "[", "]", " ", "\t", "\n", "\r", "é", "\u{2028}", "-", "{", "}"];
+const STR_ALPHABET: &[&str] = &["a", "\\", "n", "x", "0", "'", "%", "[", "]", " ", "\t", "\n", "\r", "é", "\u{2028}", "-", "{", "}", "\u{1b}", "7", "\u{0}", "\u{7f}", "9"];
 
 const NUM_LITERALS: &[&str] = &[
     "0", "7", "007", "9223372036854775807", "1e308", "1e309", "1e-400", ".5", "5.", "1e+2", "1e5", "1e-7", "0.1", "123456789012345678", "100000000000000000000.0",
@@ -229,7 +229,7 @@ pub fn run(run: &mut Run) {
     st.merge(Stats::merge_all(accs));
     run.stats = st;
     run.bounds = json!({"families": bounds, "field_names": FIELD_NAMES, "string_alphabet": STR_ALPHABET, "max_string_len": maxlen, "numeric_literals": NUM_LITERALS, "unused_expressions": UNUSED_EXPRS.len(), "sizes": sizes});
-    run.rule = format!("the Lua loader on the output of every successful compile of (a) {} and (b) lexical families: blob field names (Lua keywords and library names), every string literal content up to the length bound over an 18-character alphabet, numeric literal forms, every expression kind as an unused statement at first/middle/last position, bodies and files of n statements for the listed n with and without std; non-trivial = compiled; distinct by text", crate::engines::c01::FAMILY_RULE);
+    run.rule = format!("the Lua loader on the output of every successful compile of (a) {} and (b) lexical families: blob field names (Lua keywords and library names), every string literal content up to the length bound over a 23-character alphabet (backslash, quote-like characters, brackets, tab, LF, CR, ESC, NUL, DEL, digits, non-ASCII), numeric literal forms, every expression kind as an unused statement at first/middle/last position, bodies and files of n statements for the listed n with and without std; non-trivial = compiled; distinct by text", crate::engines::c01::FAMILY_RULE);
     run.assumptions = vec![
         "the loader is MiniLua's (full Lua 5.3 grammar, goto/label rules, 200 active locals, 255 upvalues, 200 nesting levels); register allocation limits are not modelled".into(),
         "programs the compiler rejects are not in the domain of the property and are only counted".into(),
